@@ -14,6 +14,7 @@ from vp import gen, probe, refmodels as rm
 from vp import defaults
 from vp import reuse
 from vp import forms as argforms
+from vp import corners
 
 RULE = ('seeded generator: field shapes 1..7 per side (even/odd/non-square/one-element), integer offsets in '
         '[-12,12] of either sign incl. negative-only extents and fields wholly outside the target, target '
@@ -22,7 +23,7 @@ RULE = ('seeded generator: field shapes 1..7 per side (even/odd/non-square/one-e
 ASSUMPTIONS = ['one-element fields are infinite constants only in products (DESIGN.md C06 domain decision)',
                'scalar x scalar with different offsets is excluded (documented lentil rule, unreachable via Plane/Wavefront)']
 PLAN = {'quick': {'gen': 8}, 'thorough': {'gen': 16, 'tests': 1, 'docs': 1}}
-REQUIRED_BUCKETS = ['defaults', 'reuse', 'forms', 'empty-field', 'insert:constant', 'merge:constants', 'mul:array*array', 'mul:array*scalar', 'mul:scalar*scalar', 'mul:disjoint',
+REQUIRED_BUCKETS = ['defaults', 'corners', 'reuse', 'forms', 'empty-field', 'insert:constant', 'merge:constants', 'mul:array*array', 'mul:array*scalar', 'mul:scalar*scalar', 'mul:disjoint',
                     'insert:inside', 'insert:clipped', 'insert:outside', 'insert:intensity',
                     'reduce:n>=3', 'boundary:negative-only', 'extent:queries', 'constant:length-1-vector']
 REQUIRED_ANCHORS = ['probe:Field.__mul__', 'probe:insert', 'probe:_merge', 'probe:reduce', 'probe:boundary',
@@ -318,6 +319,7 @@ def workload(ctx, lentil):
     defaults.run(ctx, lentil, 'C06', 'mul=canvas')
     reuse.run(ctx, lentil, 'C06', 'mul=canvas')
     argforms.run(ctx, lentil, 'C06', 'mul=canvas')
+    corners.run(ctx, lentil, 'C06', 'mul=canvas')
     rng = ctx.rng
     F = lentil.field
     E = lentil.extent
